@@ -15,6 +15,7 @@ package pdf
 //@ spec func hexVal(c int) int = c <= '9' ? c - '0' : c <= 'F' ? c - 'A' + 10 : c - 'a' + 10
 
 //@ func hexDigit (c) (d)
+//@   pure
 //@   tags C01 C04 C05
 //@   ensures isHex(c) ==> d == hexVal(c)
 //@   ensures !isHex(c) ==> d == 255
@@ -30,11 +31,13 @@ package pdf
 //@   | + ((pb(P,32) || pb(P,256)) ? 8 : 0) + (pb(P,32) ? 16 : 0) + ((pb(P,8) || pb(P,1024)) ? 32 : 0) + (pb(P,8) ? 64 : 0)
 
 //@ func stdSecPermToP (perm) (P)
+//@   pure
 //@   tags C09
 //@   requires 0 <= perm && perm <= 127
 //@   ensures P == specPermToP(perm)
 
 //@ func stdSecPToPerm (R, P) (perm)
+//@   pure
 //@   tags C09
 //@   ensures perm == specPToPerm(R, P)
 
@@ -44,6 +47,7 @@ package pdf
 //@   ensures specPToPerm(R, specPermToP(perm)) == closure(perm)
 
 //@ func decodeInt (buf) (res, err)
+//@   pure
 //@   tags C02 C04
 //@   requires len(buf) <= 8
 //@   loop 1: invariant 0 <= res && res < pow256(\done)
@@ -54,6 +58,7 @@ package pdf
 //@ spec rec func beVal(b seq, k int) int = k <= 0 ? 0 : beVal(b, k-1) * 256 + b[k-1]
 
 //@ func (*xRefEntry).IsFree (entry) (free)
+//@   pure
 //@   tags C04
 //@   ensures free == (entry == nil || entry.Pos < 0)
 
@@ -66,7 +71,7 @@ package pdf
 //@   | && 0 <= s.P0 && s.P0 <= s.filePos && s.P0 <= 281474976710656 && len(s.src.stream) <= 281474976710656
 //@   | && s.src.rdpos == s.filePos - s.P0 + s.used && s.src.rdpos <= len(s.src.stream)
 //@   | && (forall j in offof(s.buf)..offof(s.buf)+s.used :: raw(s.buf)[j] == s.src.stream[s.filePos - s.P0 + j - offof(s.buf)])
-//@   | && (s.err != nil ==> s.src.fails && s.src.rdpos == len(s.src.stream) && s.err != io.EOF && s.err != io.ErrUnexpectedEOF)
+//@   | && (s.err != nil ==> s.src.fails && s.src.rdpos == len(s.src.stream) && s.err != io.EOF && s.err != io.ErrUnexpectedEOF && !malformed(s.err))
 //@ pred apos(s *scanner) = s.filePos + s.pos
 
 //@ func (*scanner).refill (s) (err)
@@ -123,3 +128,49 @@ package pdf
 //@   loop 1: decreases avail(s), (s.pos < s.used ? 0 : 1)
 //@   loop 2: invariant R(s) && scanFrame(s) && apos(s) >= old(apos(s)) && (empty <==> apos(s) == old(apos(s)))
 //@   loop 2: decreases s.used - s.pos
+
+//@ func (*scanner).SkipString (s, pat) (err)
+//@   tags C01 C04 C05 C19 C20
+//@   requires R(s) && len(pat) <= 1024
+//@   assigns s.filePos, s.pos, s.used, s.err, elems(s.buf), s.src.rdpos
+//@   ensures R(s) && scanFrame(s)
+//@   ensures err == nil ==> apos(s) == old(apos(s)) + len(pat)
+//@   ensures err == nil ==> forall i in 0..len(pat) :: s.src.stream[old(apos(s)) - s.P0 + i] == pat[i]
+//@   ensures err != nil ==> apos(s) == old(apos(s))
+//@   ensures err != nil ==> malformed(err) || (s.src.fails && err == s.err)
+//@   ensures s.src.fails && old(avail(s)) < len(pat) ==> err != nil && !malformed(err)
+
+//@ func (*scanner).tryHex (s) (b, ok)
+//@   tags C01 C04 C05
+//@   requires R(s)
+//@   assigns s.filePos, s.pos, s.used, s.err, elems(s.buf), s.src.rdpos
+//@   ensures R(s) && scanFrame(s)
+//@   ensures ok ==> apos(s) == old(apos(s)) + 3 && avail(s) >= 0
+//@   ensures ok ==> isHex(s.src.stream[old(apos(s)) - s.P0 + 1]) && isHex(s.src.stream[old(apos(s)) - s.P0 + 2])
+//@   ensures ok ==> b == 16 * hexVal(s.src.stream[old(apos(s)) - s.P0 + 1]) + hexVal(s.src.stream[old(apos(s)) - s.P0 + 2])
+//@   ensures !ok ==> apos(s) == old(apos(s))
+//@   ensures !ok ==> old(avail(s)) < 3 || !isHex(s.src.stream[old(apos(s)) - s.P0 + 1]) || !isHex(s.src.stream[old(apos(s)) - s.P0 + 2])
+
+// class table against the lexical classes of ISO 32000-2, 7.2.3 (Tables 1 and 2)
+//@ global class (C01 C04 C05 C15) forall c in 0..256 :: class[c] == (isSpace(c) ? 1 : isDelim(c) ? 2 : 0)
+
+// ---- white space and comments (7.2.3, 7.2.4) ----
+// inCmt(b, p0, k): scanning from p0 (outside a comment), position k lies inside a comment
+//@ spec rec func inCmt(b seq, p0 int, k int) bool = k <= p0 ? false : (inCmt(b, p0, k-1) ? !(b[k-1] == 13 || b[k-1] == 10) : b[k-1] == '%')
+//@ spec func wsAt(b seq, p0 int, j int) bool = inCmt(b, p0, j) || b[j] == '%' || isSpace(b[j])
+
+//@ func (*scanner).SkipWhiteSpace (s) (err)
+//@   tags C01 C04 C05 C19 C20
+//@   requires R(s)
+//@   assigns s.filePos, s.pos, s.used, s.err, elems(s.buf), s.src.rdpos
+//@   ensures R(s) && scanFrame(s)
+//@   ensures apos(s) >= old(apos(s))
+//@   ensures forall j in old(apos(s)) - s.P0 .. apos(s) - s.P0 :: wsAt(s.src.stream, old(apos(s)) - s.P0, j)
+//@   ensures err == nil ==> avail(s) > 0 && !wsAt(s.src.stream, old(apos(s)) - s.P0, apos(s) - s.P0)
+//@   ensures err == io.EOF ==> atEnd(s) && !s.src.fails
+//@   ensures err != nil && err != io.EOF ==> s.src.fails && err == s.err && atEnd(s)
+//@   ensures s.src.fails && atEnd(s) ==> err != nil && err != io.EOF
+//@   loop ScanBytes.1: invariant isComment == inCmt(s.src.stream, old(apos(s)) - s.P0, apos(s) - s.P0)
+//@   loop ScanBytes.1: invariant forall j in old(apos(s)) - s.P0 .. apos(s) - s.P0 :: wsAt(s.src.stream, old(apos(s)) - s.P0, j)
+//@   loop ScanBytes.2: invariant isComment == inCmt(s.src.stream, old(apos(s)) - s.P0, apos(s) - s.P0)
+//@   loop ScanBytes.2: invariant forall j in old(apos(s)) - s.P0 .. apos(s) - s.P0 :: wsAt(s.src.stream, old(apos(s)) - s.P0, j)
